@@ -843,6 +843,9 @@ func explore(r *mc.Run, name string, n, k int, perms [][]int, permNote string, a
 		ok := true
 		for g := lo; g < hi && ok; g++ {
 			base := graphs[g].expand(n)
+			if len(cache) > 8192 {
+				cache = parseCache{} // bound the memory held by memoised parses
+			}
 			cnt := 0
 			_, div := mc.Explore(k, st, func(x *mc.X) {
 				if !ok {
@@ -925,7 +928,7 @@ func Run(r *mc.Run) {
 		"folded build-dependency fields and a folded Binary field are counted as 'ordinary' .dsc (RFC822 continuation lines, as dpkg-source writes long fields)",
 	}
 	selfCheck(r)
-	debug.SetGCPercent(800) // the live heap is tiny; OrderDSCForBuild allocates a lot per call
+	debug.SetGCPercent(300) // the live heap is tiny; OrderDSCForBuild allocates a lot per call
 	both := archs
 	explore(r, "graphs-n1-k2", 1, 2, permutations(1), "all permutations", both, -1)
 	explore(r, "graphs-n2-k2", 2, 2, permutations(2), "all permutations", both, -1)
